@@ -62,11 +62,14 @@ class _Child:
     TIMEOUT = 90.0  # per request
     START_TIMEOUT = 600.0  # interpreter start + sqlalchemy import on a heavily loaded machine
 
-    def __init__(self, ctx):
+    def __init__(self):
+        import tempfile
+
         env = dict(os.environ)
         env.update(VERIF_BUILD="compiled", PYTHONPATH=VERIF, PYTHONHASHSEED="0", PYTHONDONTWRITEBYTECODE="1")
-        self.errpath = os.path.join(ctx.scratch, "c55_child.stderr")
-        self.errf = open(self.errpath, "wb")
+        base = "/dev/shm" if os.path.isdir("/dev/shm") and os.access("/dev/shm", os.W_OK) else tempfile.gettempdir()
+        fd, self.errpath = tempfile.mkstemp(prefix="vf_C55_child_", suffix=".stderr", dir=base)  # removed again in stop()
+        self.errf = os.fdopen(fd, "wb")
         self.dead = None
         self.p = subprocess.Popen([PY, "-u", "-m", "checks._c55_child"], stdin=subprocess.PIPE, stdout=subprocess.PIPE, stderr=self.errf,
                                   env=env, cwd=VERIF, preexec_fn=_pdeathsig)
@@ -78,6 +81,8 @@ class _Child:
         self.info = hello["compiled"]
 
     def _stderr_tail(self):
+        if getattr(self, "_tail", None) is not None:
+            return self._tail
         try:
             return open(self.errpath, "rb").read()[-1500:].decode("utf8", "replace")
         except OSError:
@@ -119,6 +124,7 @@ class _Child:
         if p is None:
             return
         self.p = None
+        self._tail = self._stderr_tail()
         try:
             try:
                 p.stdin.close()
@@ -135,6 +141,25 @@ class _Child:
                     f.close()
                 except OSError:
                     pass
+            try:
+                os.unlink(self.errpath)
+            except OSError:
+                pass
+
+
+_EARLY = {}
+
+
+def _prestart():
+    """Start the shard's child while the runner is still setting up (called from subs()): interpreter start + sqlalchemy import of the
+    child then do not eat the first sub-check's time budget.  The child is adopted (and its shutdown chained to ctx.cleanup) by the
+    first _child_for(ctx); if no case is ever run it exits by itself on stdin EOF / PR_SET_PDEATHSIG when this process ends."""
+    if "child" in _EARLY or "error" in _EARLY:
+        return
+    try:
+        _EARLY["child"] = _Child()
+    except HarnessError as e:
+        _EARLY["error"] = str(e)
 
 
 def _child_for(ctx):
@@ -151,7 +176,9 @@ def _child_for(ctx):
         if interp.build_info() != {k: False for k in interp.build_info()}:
             raise HarnessError(f"check process must run the pure-Python build, got {interp.build_info()}")
         try:
-            ch = _Child(ctx)
+            if "error" in _EARLY:
+                raise HarnessError(_EARLY.pop("error"))
+            ch = _EARLY.pop("child", None) or _Child()
         except HarnessError as e:
             ctx._c55_child_error = str(e)
             raise
@@ -705,5 +732,6 @@ _STRATS = {
 
 
 def subs(tier):
+    _prestart()
     return [Generated(fam, _mk_check(fam), strategy=_STRATS[fam](), quick=2000, thorough=25000) for fam in _STRATS] + [
         Generated("xpickle", check_xpickle, strategy=_xpickle_cases, quick=400, thorough=5000)]
